@@ -58,10 +58,23 @@ def filter_comp(rng, hdr, nlines):
 def gen_chain(rng):
     rows = gen.gen_rows(rng, min_rec=3, max_rec=10, blank_p=0.1)
     hdr = rows[0]
+    if rng.random() < 0.3:
+        # header cells as exported by a spreadsheet: padded, or with a stray ';' or '|' (the library cleans header names: the
+        # predecessor's data.csv starts with the RAW header row, and its successor must see the same cleaned names)
+        deco = lambda h: rng.choice([" " + h, h + " ", " " + h + " ", h + ";", "|" + h])  # noqa: E731
+        rows[0] = [hdr[0]] + [deco(h) if rng.random() < 0.7 else h for h in hdr[1:]]
+        byname = True
+    else:
+        byname = rng.random() < 0.3
     k = rng.randint(2, 4)
     members = []
     for j in range(k):
         comps = [filter_comp(rng, hdr, len(rows)) for _ in range(rng.choice([1, 1, 2]))]
+        if byname:
+            # address the columns by (cleaned) header name instead of by position
+            import re
+
+            comps = [re.sub(r"#(\d+)", lambda mt: "#" + hdr[int(mt.group(1))], c) for c in comps]
         members.append({"id": f"m{j}", "scan": rng.choice(["*", "*", "*", "1*", "0-6"]), "comps": comps})
     s = rng.randint(1, k - 1)
     for j in range(s, k):
@@ -365,6 +378,7 @@ def _chain(sc, out, w):
     out.nontrivial = flowed
     out.probe("another run on the same instance while the chain was part-way", False)
     out.probe("another instance ran the same chain over another file while the chain was part-way", False)
+    out.probe("chain over a file whose header cells need cleaning, filters by header name", any(h != h.strip() or ";" in h or "|" in h for h in sc["rows"][0]))
     out.probe("member without source-mode after one with it", any(members[j].get("modes") and not members[j + 1].get("modes") for j in range(k - 1)))
     out.probe("predecessor dropped the header record", any(e and e[0] and e[0][0] != "id" for e in expected[:-1] if e))
     out.log(expected, len(out.violations))
@@ -374,7 +388,7 @@ def _chain(sc, out, w):
 
 
 def _g_member(sc):
-    return {"id": "g0", "scan": sc["gscan"], "comps": ["@v = #1", "@t.k = line_number()", 'push("s", #2)', "@n = count()"]}
+    return {"id": "g0", "scan": sc["gscan"], "comps": ["@v = #1", "@t.k = line_number()", "@t.j = count()", 'push("s", #2)', "@n = count()"]}
 
 
 def _g2_member(sc, selfref=False):
@@ -402,7 +416,7 @@ def _refs(sc, out, w):
         for fi in range(len(sc["files"])):
             cs.file_manager.add_named_file(name=f"f{fi}", path=f"src/f{fi}.csv")
         cs.paths_manager.add_named_paths(name="G", paths=[gen.render(m) for m in gms])
-        reader = f"~id:r0~ $[*][ @a = $G.variables.v  @b = $G.variables.t.k  @n = $G.variables.n  @sl = $G.variables.s  @h = {ref_h}" + ("  @w = $G.variables.w  @n2 = $G.variables.n2" if two else "") + " ]"
+        reader = f"~id:r0~ $[*][ @a = $G.variables.v  @b = $G.variables.t.k  @n = $G.variables.n  @sl = $G.variables.s  @bj = $G.variables.t.j  @tw = $G.variables.t  @h = {ref_h}" + (f"  @w = $G.variables.w  @n2 = $G.variables.n2  @h1 = $G.headers.{hname}.g1" if two else "") + " ]"
         cs.paths_manager.add_named_paths(name="R", paths=[reader])
     reader_name = f"f{sc['reader_file']}"
     if sc.get("reader_layout") == "permuted":
@@ -426,8 +440,9 @@ def _refs(sc, out, w):
     cp, printed, lines = ops.standalone(gen.render(gm, f"src/f{last['file']}.csv"))
     out.runs += 1
     want_vars = ops.jsonable(cp.variables)
+    lines2 = None
     if two:
-        cp2, _, _ = ops.standalone(gen.render(_g2_member(sc), f"src/f{last['file']}.csv"))
+        cp2, _, lines2 = ops.standalone(gen.render(_g2_member(sc), f"src/f{last['file']}.csv"))
         out.runs += 1
         v2 = ops.jsonable(cp2.variables)
         n_of = [want_vars.get("n"), v2.get("n")]
@@ -454,6 +469,15 @@ def _refs(sc, out, w):
     want_sl = cp.variables.get("s")
     if raw_sl != want_sl:
         out.v("variable_reference", f"{where}: $G.variables.s evaluated to {raw_sl!r}, the most recent run of G left {want_sl!r} (errors {errs})", form="stack")
+    want_t = want_vars.get("t") or {}
+    if rv.get("bj") != want_t.get("j"):
+        out.v("variable_reference", f"{where}: $G.variables.t.j evaluated to {rv.get('bj')!r}, the most recent run of G left {want_t.get('j')!r} (the same csvpath also reads $G.variables.t.k and $G.variables.t; errors {errs})", form="tracking2")
+    if want_t and rv.get("tw") != want_t:
+        out.v("variable_reference", f"{where}: $G.variables.t evaluated to {rv.get('tw')!r}, the most recent run of G left {want_t!r} (errors {errs})", form="whole_tracking")
+    if two and not selfref and lines2 is not None and last["method"] in ops.COLLECTING:
+        want_col1 = [f"{l[col]}".strip() for l in lines2 if len(l) > col and l[col] is not None]
+        if rv.get("h1") != want_col1:
+            out.v("header_reference", f"{where}: $G.headers.{hname}.g1 evaluated to {rv.get('h1')!r}, the values g1 collected under column {col} are {want_col1!r} (the same csvpath also reads {ref_h}; errors {errs})", by_id=True, second_member=True)
     want_b = (want_vars.get("t") or {}).get("k")
     if rv.get("b") != want_b:
         out.v("variable_reference", f"{where}: $G.variables.t.k evaluated to {rv.get('b')!r}, the most recent run of G left {want_b!r} (errors {errs})", form="tracking")
